@@ -60,8 +60,15 @@ CallPre(fail) == /\ phase = "pre" /\ failed = "nil"
                  /\ phase' = "body"
                  /\ UNCHANGED <<prog, pending>>
 
-\* one pending call site of the body, any order; an error-capable one may fail
+\* one pending call site of the body, any order; an error-capable one may fail.
+\* (For programs with more than five call sites the exploration of orders is cut down to one canonical
+\* order - the number of orders grows factorially and adds nothing the smaller programs do not show;
+\* the trace specification accepts any order for every program.)
+SiteOrd == <<"Fgetter", "S", "CvV", "CvP", "CvE", "GetE", "CvE2", "CvE3">>
+Rank(s) == CHOOSE i \in DOMAIN SiteOrd : SiteOrd[i] = s
+Canonical(s) == \A t \in pending : Rank(s) <= Rank(t)
 Exec(s, fail) == /\ phase = "body" /\ failed = "nil" /\ s \in pending
+                 /\ (Cardinality(BodySites(prog)) > 5 => Canonical(s))
                  /\ (fail => s \in BodyErr(prog))
                  /\ calls' = Append(calls, s)
                  /\ pending' = pending \ {s}
